@@ -134,6 +134,10 @@ impl Property for C16 {
                 super::c17::place_cuts(rng, &mut case, inside);
                 let n = case.cuts().len() + 1;
                 case.files = (0..n).map(|_| FilePlan::default()).collect();
+                // a single file may also be the only entry of a directory argument
+                if n == 1 && rng.chance(1, 3) {
+                    case.set("as_dir", 1);
+                }
             }
             "double" => {
                 case.rfault = Some(Fault {
@@ -554,11 +558,36 @@ fn check_files(case: &Case, ctx: &mut Ctx) -> Option<Violation> {
         ctx.stats.invalid = true;
         return None;
     }
-    let paths = ctx.fresh_paths(datas.len());
+    let as_dir = case.param("as_dir") == 1 && datas.len() == 1;
+    let dir = if as_dir { ctx.fresh_dir() } else { None };
+    let paths = match &dir {
+        Some(d) => vec![format!("{d}/sub/only.json")],
+        None => ctx.fresh_paths(datas.len()),
+    };
+    if let Some(d) = &dir {
+        // one level of nesting: the directory holds a directory that holds the file
+        let _ = std::fs::create_dir_all(format!("{d}/sub"));
+        ctx.stats.probe("file reached through a (nested) directory argument");
+    }
+    let res = check_files_in(case, ctx, &datas, &paths, dir.as_deref());
+    if let Some(d) = &dir {
+        let _ = std::fs::remove_dir_all(d);
+    }
+    res
+}
+
+fn files_run(case: &Case, paths: &[String], datas: &[Vec<u8>], plans: &[FilePlan], dir: Option<&str>) -> RunSpec {
+    match dir {
+        Some(d) => sim_dir_spec(case, d, paths, datas, plans),
+        None => sim_files_spec(case, paths, datas, plans),
+    }
+}
+
+fn check_files_in(case: &Case, ctx: &mut Ctx, datas: &[Vec<u8>], paths: &[String], dir: Option<&str>) -> Option<Violation> {
     let mut refcase = case.clone();
     refcase.out = SinkPlan::default();
     refcase.err = SinkPlan::default();
-    let reference = ctx.exec(sim_files_spec(&refcase, &paths, &datas, &[]));
+    let reference = ctx.exec(files_run(&refcase, paths, datas, &[], dir));
     match &reference.outcome {
         Outcome::Panic(..) | Outcome::Abort(_) | Outcome::Clap(_) => {
             ctx.stats.invalid = true;
@@ -568,7 +597,7 @@ fn check_files(case: &Case, ctx: &mut Ctx) -> Option<Violation> {
         _ => {}
     }
     if case.family == "file-point" {
-        return check_file_point(case, &paths, &datas, &reference, ctx);
+        return check_file_point(case, paths, datas, &reference, ctx, dir);
     }
     let seed = case.param("sweep_seed") as u64;
     for (j, d) in datas.iter().enumerate() {
@@ -602,7 +631,7 @@ fn check_files(case: &Case, ctx: &mut Ctx) -> Option<Violation> {
                     sticky: rng.chance(1, 2),
                 });
             }
-            if let Some(mut v) = check_file_point(&p, &paths, &datas, &reference, ctx) {
+            if let Some(mut v) = check_file_point(&p, paths, datas, &reference, ctx, dir) {
                 v.reduced = Some(Box::new(p));
                 return Some(v);
             }
@@ -611,9 +640,9 @@ fn check_files(case: &Case, ctx: &mut Ctx) -> Option<Violation> {
     None
 }
 
-fn check_file_point(case: &Case, paths: &[String], datas: &[Vec<u8>], reference: &RunOut, ctx: &mut Ctx) -> Option<Violation> {
+fn check_file_point(case: &Case, paths: &[String], datas: &[Vec<u8>], reference: &RunOut, ctx: &mut Ctx, dir: Option<&str>) -> Option<Violation> {
     ctx.sub_begin();
-    let r = ctx.exec(sim_files_spec(case, paths, datas, &case.files));
+    let r = ctx.exec(files_run(case, paths, datas, &case.files, dir));
     let planned: Vec<usize> = (0..case.files.len())
         .filter(|i| case.files[*i].fault.is_some() || case.files[*i].open_fails.is_some())
         .collect();
